@@ -16,7 +16,9 @@ pure function of (tier, index); no seed is involved.
 from . import gen_abbr as ga
 
 USER_SN = {k: ga.MARKUP_USER_SNIPPETS[k] for k in ('foo', 'repeat', 'link', 'fld', 'grp', 'ali', 'rep', 'bemb')}
-STYLE_SN = {k: ga.STYLESHEET_USER_SNIPPETS[k] for k in ('kmar', 'kpad', 'klh', 'kwid', 'kmm', 'zidx', 'rawa', 'bgbm', 'bdst')}
+STYLE_SN = {k: ga.STYLESHEET_USER_SNIPPETS[k] for k in ('kmar', 'kpad', 'klh', 'kwid', 'kmm', 'zidx', 'rawa', 'bgbm', 'bdst',
+                                                         'cola', 'kdis', 'fna', 'gtx', 'stra')}
+STYLE_SN['brand'] = 'color:#ff0000|#00ff00|#0000ff'
 
 
 def _w(configs, caches=(), globals_=None):
@@ -179,6 +181,14 @@ def scenarios():
     for a in ssame:
         steps = [call(c['id'], a) for c in scfgs] + [call(c['id'], a) for c in reversed(scfgs)]
         scen('same-stylesheet-abbreviation-across-configs/%s' % a, _w(scfgs), steps)
+
+    # 1b''. the same stylesheet abbreviation under option sets that share ONE cache (and one snippet table)
+    cvariants = [v for v in svariants if 'snippets' not in v]
+    ccfgs = [dict(v, id='c%d' % i, type='stylesheet', cache='k0', snippets=STYLE_SN, holder=('Config' if i % 3 == 2 else 'dict'))
+             for i, v in enumerate(cvariants)]
+    for a in ssame + ['cola', 'brand', 'kdis', 'fna', 'gtx', 'stra', 'brand+cola', 'kdis-b+fna-r']:
+        steps = [call(c['id'], a) for c in ccfgs] + [call(c['id'], a) for c in reversed(ccfgs)]
+        scen('same-stylesheet-abbreviation-across-option-sets-sharing-a-cache/%s' % a, _w(ccfgs, caches=['k0']), steps)
 
     # 1b'. the same TEXT under configs of different type / context that share one cache dict
     #      (valid in one reading, malformed in the other)
